@@ -87,6 +87,71 @@ let find_pattern name =
     | (k, r) :: rest -> if k = name then r else go rest in
   go pattern_table
 
+(* ---- decoders for trees and the selector IR ---- *)
+let bool_ x = (atom x = "1" || atom x = "true")
+let opt_ f = function A "none" -> None | L [A "some"; x] -> Some (f x) | _ -> failwith "opt"
+let list_ f = function L l -> List.map f l | A _ -> failwith "list"
+let rec pyval_ = function
+  | A "none" -> PNone
+  | L [A "str"; s] -> PStr (str_ s)
+  | L [A "bytes"; o] -> PBytes (opt_ str_ o)
+  | L [A "list"; items; r] -> PList (list_ pyval_ items, str_ r)
+  | L [A "other"; r] -> POther (str_ r)
+  | _ -> failwith "pyval"
+let kind_ x = match int_ x with 0 -> KText | 1 -> KComment | 2 -> KCData | 3 -> KPI | 4 -> KDoctype | 5 -> KDecl | _ -> failwith "kind"
+let rec node_ = function
+  | L [A "e"; name; prefix; ns; attrs; kids] ->
+    Elem (str_ name, opt_ str_ prefix, opt_ str_ ns,
+          list_ (function L [full; kns; kname; v] ->
+                   ({ k_full = str_ full; k_ns = opt_ str_ kns; k_name = opt_ str_ kname }, pyval_ v)
+                 | _ -> failwith "attr") attrs,
+          list_ node_ kids)
+  | L [A "s"; k; s] -> Str (kind_ k, str_ s)
+  | _ -> failwith "node"
+let tree_ = function
+  | L [A "tree"; xml; isdoc; n] -> { t_xml = bool_ xml; t_isdoc = bool_ isdoc; t_root = node_ n }
+  | _ -> failwith "tree"
+let cset_ = list_ (function L [a; b] -> (n_of_int (int_ a), n_of_int (int_ b)) | _ -> failwith "range")
+let rec re_ = function
+  | A "eps" -> Eps | A "behindstart" -> BehindStart | A "atstart" -> AtStart | A "atend" -> AtEnd
+  | A "atendstrict" -> AtEndStrict
+  | L [A "chr"; cs] -> Chr (cset_ cs)
+  | L [A "seq"; a; b] -> Seq (re_ a, re_ b)
+  | L [A "alt"; a; b] -> Alt (re_ a, re_ b)
+  | L [A "rep"; g; mn; mx; r] ->
+    Rep (bool_ g, nat_of_int (int_ mn), (match mx with A "inf" -> None | x -> Some (nat_of_int (int_ x))), re_ r)
+  | L [A "look"; neg; r] -> Look (bool_ neg, re_ r)
+  | L [A "behind"; neg; cs] -> Behind (bool_ neg, cset_ cs)
+  | L [A "grp"; g; r] -> Grp (nat_of_int (int_ g), re_ r)
+  | _ -> failwith "re"
+let rec sel_ = function
+  | A "null" -> SNull
+  | L [A "sel"; tag; ids; classes; attrs; nths; subs; rel; rt; contains; langs; flags] ->
+    Sel (opt_ (function L [A "tag"; n; p] -> { tg_name = str_ n; tg_prefix = opt_ str_ p } | _ -> failwith "tag") tag,
+         list_ str_ ids, list_ str_ classes,
+         list_ (function L [A "attr"; n; p; pat; xp] ->
+                  { at_name = str_ n; at_prefix = str_ p; at_pat = opt_ re_ pat; at_xml_pat = opt_ re_ xp }
+                | _ -> failwith "sattr") attrs,
+         list_ (function L [A "nth"; a; n; b; ot; last; s] ->
+                  SNth (z_of_string (atom a), bool_ n, z_of_string (atom b), bool_ ot, bool_ last, sl_ s)
+                | _ -> failwith "nth") nths,
+         list_ sl_ subs, sl_ rel, opt_ str_ rt,
+         list_ (function L [A "contains"; tx; own] -> { ct_text = list_ str_ tx; ct_own = bool_ own }
+                | _ -> failwith "contains") contains,
+         list_ (list_ str_) langs, n_of_int (int_ flags))
+  | _ -> failwith "sel"
+and sl_ = function
+  | L [A "sl"; sels; isnot; ishtml] -> SL (list_ sel_ sels, bool_ isnot, bool_ ishtml)
+  | _ -> failwith "sl"
+let ns_ = list_ (function L [k; v] -> (str_ k, str_ v) | _ -> failwith "ns")
+let path_ = list_ (fun x -> nat_of_int (int_ x))
+let show_path p = "(" ^ Stdlib.String.concat " " (List.map (fun i -> string_of_int (int_of_nat i)) p) ^ ")"
+let show_paths ps = "(" ^ Stdlib.String.concat " " (List.map show_path ps) ^ ")"
+
+let cur_tree = ref { t_xml = false; t_isdoc = false; t_root = Str (KText, []) }
+let cur_ns = ref []
+let cur_sl = ref (SL ([], false, false))
+
 let handle (e : sexp) : Stdlib.String.t =
   match e with
   | L [A "rematch"; name; i; s] ->
@@ -109,6 +174,14 @@ let handle (e : sexp) : Stdlib.String.t =
   | L [A "validate_day"; y; m; d] ->
     show_bool (validate_day (z_of_string (atom y)) (z_of_string (atom m)) (z_of_string (atom d)))
   | L [A "iso_weeks"; y] -> show_z (iso_weeks (z_of_string (atom y)))
+  | L [A "settree"; t] -> cur_tree := tree_ t; "ok"
+  | L [A "setsel"; ns; sl] -> cur_ns := ns_ ns; cur_sl := sl_ sl; "ok"
+  | L [A "match"; p] -> show_res show_bool (api_match bidi_of !cur_tree !cur_ns !cur_sl (path_ p))
+  | L [A "select"; p; lim] ->
+    show_res show_paths (api_select bidi_of !cur_tree !cur_ns !cur_sl (path_ p) (z_of_string (atom lim)))
+  | L [A "filter"; p] -> show_res show_paths (api_filter bidi_of !cur_tree !cur_ns !cur_sl (path_ p))
+  | L [A "closest"; p] -> show_res (show_opt show_path) (api_closest bidi_of !cur_tree !cur_ns !cur_sl (path_ p))
+  | L [A "langfilter"; r; t] -> show_bool (extended_language_filter (str_ r) (str_ t))
   | _ -> failwith "unknown command"
 
 let () =
